@@ -191,6 +191,19 @@ class T:
         return t, rty
 
 
+_PINNED = None
+
+
+def pinned():
+    """translations of the pinned source (committed: harness/translate/pinned.json), used only when the current source cannot be translated"""
+    global _PINNED
+    if _PINNED is None:
+        import json
+        p = Path(__file__).parent / "pinned.json"
+        _PINNED = json.loads(p.read_text()) if p.exists() else {}
+    return _PINNED
+
+
 def find_fn(tree, name, inside=None):
     scope = tree
     if inside:
@@ -251,8 +264,15 @@ def translate_kernels():
             out.append(f"def {lean_name} ({' '.join(ps)} : Int) : {rty} :=\n  {tr.show(t)}\n")
             report.append(dict(kernel=lean_name, source=f"{fname}:{fn}", ok=True))
         except (Untranslatable, OSError, SyntaxError, KeyError) as ex:
-            out.append(f"-- {lean_name}: NOT TRANSLATABLE: {str(ex)[:150]}\n")
-            report.append(dict(kernel=lean_name, source=f"{fname}:{fn}", ok=False, why=str(ex)[:200]))
+            pin = pinned().get("kernels", {}).get(lean_name)
+            if pin:
+                # the function was renamed, merged, inlined or left the translatable subset: the theorems are then checked against the translation of the
+                # pinned source, and the tie for this kernel is the exact correspondence of the property's harness alone (reported as a downgrade, see DESIGN 3a)
+                out.append(f"-- {lean_name}: NOT TRANSLATABLE from the current source ({str(ex)[:120]}); pinned translation:\n{pin}\n")
+                report.append(dict(kernel=lean_name, source=f"{fname}:{fn}", ok=False, fallback=True, why=str(ex)[:200]))
+            else:
+                out.append(f"-- {lean_name}: NOT TRANSLATABLE: {str(ex)[:150]}\n")
+                report.append(dict(kernel=lean_name, source=f"{fname}:{fn}", ok=False, why=str(ex)[:200]))
     out.append("end Gen")
     return "\n".join(out) + "\n", report
 
@@ -297,8 +317,13 @@ def translate_tables():
             out.append(f"def {name} : {ty} := {v}\n")
             report.append(dict(table=name, source=source, ok=True))
         except Exception as ex:     # any failure = not translatable, reported
-            out.append(f"-- {name}: NOT TRANSLATABLE: {str(ex)[:150]}\n")
-            report.append(dict(table=name, source=source, ok=False, why=str(ex)[:200]))
+            pin = pinned().get("tables", {}).get(name)
+            if pin:
+                out.append(f"-- {name}: NOT TRANSLATABLE from the current source ({str(ex)[:120]}); pinned translation:\n{pin}\n")
+                report.append(dict(table=name, source=source, ok=False, fallback=True, why=str(ex)[:200]))
+            else:
+                out.append(f"-- {name}: NOT TRANSLATABLE: {str(ex)[:150]}\n")
+                report.append(dict(table=name, source=source, ok=False, why=str(ex)[:200]))
 
     eg = ast.parse((src_dir() / "example_graphs.py").read_text())
     ff = ast.parse((src_dir() / "flux_finder" / "flux_finder.py").read_text())
